@@ -240,6 +240,8 @@ impl Model for M {
                 vec![Op::Load(0), Op::LoadCode(1), Op::Checkpoint, Op::Sstore(1, 0, 1), Op::Tstore(1, 0, 1), Op::Checkpoint],
                 // an outer frame moved value, an inner frame wrote storage, logged and committed
                 vec![Op::Load(0), Op::LoadCode(1), Op::Checkpoint, Op::Transfer(0, 1, V::One), Op::Checkpoint, Op::Sstore(1, 1, 2), Op::Log, Op::Commit],
+                // a contract that already self-destructed (to another account) and was funded again, inside an open frame
+                vec![Op::Load(0), Op::LoadCode(1), Op::Selfdestruct(1, 0), Op::Transfer(0, 1, V::Three), Op::Checkpoint],
             ];
         }
         vec![
@@ -509,7 +511,7 @@ pub fn run(ctx: &Ctx) -> i32 {
         acc.merge(a);
     }
     let meta = Meta {
-        rule: "BFS over JournaledState operation histories (4 specs, 5 initial histories incl. two that start inside nested frames), de-duplicated by the full public state + journal + snapshot stack; distinct = distinct (state, op kind, result, nesting)".into(),
+        rule: "BFS over JournaledState operation histories (4 specs, 6 initial histories incl. three that start inside nested frames), de-duplicated by the full public state + journal + snapshot stack; distinct = distinct (state, op kind, result, nesting)".into(),
         assumptions: vec![
             "operations are issued under the calling contract EvmContext follows (accounts loaded before use, LIFO checkpoints)".into(),
             "address 0x03's surviving touch (consensus quirk) is outside the alphabet".into(),
